@@ -6,7 +6,7 @@ import ast
 from .. import kernelspec
 from ..dataflow import flow_of
 from ..model import AnalysisError, Program, body_walk, calls_in_body, dotted, norm, parent
-from ..report import Result
+from ..report import Result, depends
 from ..stream import cwrite_calls
 from ..streamops import KMOD, StreamOp
 
@@ -240,7 +240,10 @@ def run(prog: Program, res: Result, tier: str) -> None:
     ok = "if key in attrs.fields_dict(Header)" in fsrc and "'header': Header(**hdr_checked)" in fsrc
     (res.ok if ok else res.bad)("R4", ff, ff.node, "the header is rebuilt from the stored attributes that are Header fields" if ok else
                                 "from_file no longer rebuilds the Header from the stored attributes", construct="from_file header", key="file:rebuild")
-    res.floor("R1", 8)
+    # ---- R1 (cont.) the z-scores the masks threshold (shared with C15.R1) ----------------------------------------------
+    depends(res, "R1", prog, tier, "C15", accept=lambda o: (o.key or "").startswith("zscore:"),
+            why="both mask methods threshold estimate_zscore(...).data: C15's rules for that function are re-evaluated here")
+    res.floor("R1", 11)
     res.floor("R2", 1)
     res.floor("R3", 13)
     res.floor("R4", 28)
